@@ -908,7 +908,7 @@ unit(P, U_K2, "R", bounded=True,
 # ---- A2 generator
 def gen_pair_cases(rnd, tier):
     cap = 7000 if tier == "quick" else 70000
-    budget = 330000 if tier == "quick" else 4000000
+    budget = 200000 if tier == "quick" else 4000000
     vals = [0.0, 0.25, 0.5, 1.0]
     cands = []
     for nrow in (1, 2):
@@ -964,7 +964,7 @@ def proto_cost(proto, xo, nself, nm, npg, part):
 def gen_proto_cases(rnd, tier, proto, multi=False):
     nparent = PROTOCOLS[proto][1]
     cap = 20000 if tier == "quick" else 300000
-    budget = 70000 if tier == "quick" else 850000
+    budget = 50000 if tier == "quick" else 850000
     vecs = [([0.5], None), ([0.5, 0.25], None), ([0.5, 0.0], None), ([0.5, 1.0], None), ([0.5, 0.5], [1, 2]),
             ([0.5, 0.1], None), ([0.5, 0.5], None), ([0.5, 0.75], None),
             ([0.5, 1.0, 0.25], None), ([0.5, 0.25, 0.5], [1, 1, 2]), ([0.5, 0.0, 0.3], None), ([0.5, 0.5, 0.1], [1, 2, 2]),
